@@ -148,6 +148,10 @@ func main() {
 		}
 	case "api":
 		runAPI(readCases(*inputs), *rep, *conc)
+	case "intervals":
+		runIntervals(readCases(*inputs), *outDir)
+	case "commentcheck":
+		runCommentCheck(*inputs)
 	case "canon":
 		// file names on stdin -> canonical tree (parentheses elided) or ERR
 		sc := bufio.NewScanner(os.Stdin)
